@@ -1,6 +1,6 @@
 package main
 
-// C35 facts: every `panic(...)` call of bfe_http2/server.go with its enclosing function and the first
+// C35 facts: every `panic(...)` call of bfe_http2/server.go, flow.go, writesched.go, write.go with its enclosing function and the first
 // string literal of its argument ("<expr>" if there is none).  The Lean side must classify every site
 // (modelled as an `internalPanic` transition, or outside the model with a stated reason), so a new or
 // changed panic site re-opens the obligation.
@@ -14,45 +14,47 @@ import (
 
 func init() {
 	register("C35", func(repo string) (string, error) {
-		_, f, err := parseFile(repo, "bfe_http2/server.go")
-		if err != nil {
-			return "", err
-		}
 		type site struct{ fn, msg string }
 		var sites []site
-		for _, d := range f.Decls {
-			fd, ok := d.(*ast.FuncDecl)
-			if !ok || fd.Body == nil {
-				continue
+		for _, file := range []string{"server.go", "flow.go", "writesched.go", "write.go"} {
+			_, f, err := parseFile(repo, "bfe_http2/"+file)
+			if err != nil {
+				return "", err
 			}
-			ast.Inspect(fd.Body, func(n ast.Node) bool {
-				ce, ok := n.(*ast.CallExpr)
-				if !ok {
-					return true
+			for _, d := range f.Decls {
+				fd, ok := d.(*ast.FuncDecl)
+				if !ok || fd.Body == nil {
+					continue
 				}
-				id, ok := ce.Fun.(*ast.Ident)
-				if !ok || id.Name != "panic" || len(ce.Args) != 1 {
-					return true
-				}
-				msg := "<expr>"
-				ast.Inspect(ce.Args[0], func(m ast.Node) bool {
-					if bl, ok := m.(*ast.BasicLit); ok && bl.Kind == token.STRING && msg == "<expr>" {
-						if s, ok := strLit(bl); ok {
-							msg = s
-						}
+				ast.Inspect(fd.Body, func(n ast.Node) bool {
+					ce, ok := n.(*ast.CallExpr)
+					if !ok {
+						return true
 					}
+					id, ok := ce.Fun.(*ast.Ident)
+					if !ok || id.Name != "panic" || len(ce.Args) != 1 {
+						return true
+					}
+					msg := "<expr>"
+					ast.Inspect(ce.Args[0], func(m ast.Node) bool {
+						if bl, ok := m.(*ast.BasicLit); ok && bl.Kind == token.STRING && msg == "<expr>" {
+							if s, ok := strLit(bl); ok {
+								msg = s
+							}
+						}
+						return true
+					})
+					sites = append(sites, site{fd.Name.Name, msg})
 					return true
 				})
-				sites = append(sites, site{fd.Name.Name, msg})
-				return true
-			})
+			}
 		}
 		if len(sites) < 5 {
 			return "", fmt.Errorf("only %d panic sites found in server.go: shape changed", len(sites))
 		}
 		var b strings.Builder
-		b.WriteString(header("C35", "bfe_http2/server.go"))
-		b.WriteString("/-- (enclosing function, first string literal of the argument) of every `panic(...)` in server.go, in source order -/\n")
+		b.WriteString(header("C35", "bfe_http2/server.go", "flow.go", "writesched.go", "write.go"))
+		b.WriteString("/-- (enclosing function, first string literal of the argument) of every `panic(...)` in server.go, flow.go, writesched.go, write.go, in source order -/\n")
 		b.WriteString("def panicSites : List (String × String) := [\n")
 		for i, s := range sites {
 			sep := ","
